@@ -38,6 +38,10 @@ def run(ctx):
             cand = sorted({max(1, t + d) for t in ticks for d in (-1, 0, 1)} | {r.randrange(1, ticks[-1] + 2) for _ in range(6)})
             chosen = sorted(r.sample(cand, min(len(cand), r.choice([1, 2, 3, 6, 12]))))
             case["tempo"] = [[0, 120000]] + [[t, r.choice([60000, 90000, 200000, 1000 * r.randrange(1, 1000)])] for t in chosen]
+        if k % 3 == 0:
+            # the sibling special kinds other games write ('S 64' drum fills, 'S 0' / 'S 1' co-op phrases) over the notes: only
+            # the 'S 2' lines are star-power phrases of the track
+            case["body"] = nt.interleave(r, body, _notes.sibling_phrase_lines(r, body))
         cases.append(case)
     _notes._judge(ctx, cases, "C05", "seeded tracks with many phrases", max_skip_ratio=0.01)
     # sizes: hundreds of phrases (nested, abutting, zero-length) and hundreds of notes
